@@ -108,8 +108,32 @@ func newReq(method string, hdr http.Header) *http.Request {
 
 // constant inner handler used when the property does not care about the handler
 var okHandler = http.HandlerFunc(func(w http.ResponseWriter, _ *http.Request) {
-	w.WriteHeader(200)
+	commitAndEdit(w, w.Header(), 200)
 })
+
+// commitAndEdit: the handler keeps the header values it was given (the slices themselves), commits the response, and then edits
+// what it kept.
+func commitAndEdit(w http.ResponseWriter, live http.Header, code int) {
+	held := make(http.Header, len(live))
+	for k, v := range live {
+		held[k] = v
+	}
+	w.WriteHeader(code)
+	afterCommit(held)
+}
+
+// afterCommit: what a handler may still do once the status is committed - nothing the client sees any more: it edits in place,
+// up to their capacity, the response-header values it can reach ("one more name" added to each, another one each time). Storage
+// the library still uses is found out by what later responses, or Config(), look like.
+func afterCommit(h http.Header) {
+	n := strconv.FormatInt(appendSeq.Add(1), 10)
+	for _, v := range h {
+		v = v[:cap(v)]
+		for i := range v {
+			v[i] += ",x-edited-after-commit-" + n
+		}
+	}
+}
 
 // ---------------------------------------------------------------- byte helpers
 
